@@ -218,20 +218,11 @@ func (e *kvElection) handleHeartbeatFailure(err error) {
 		)...,
 	)
 
-	e.becomeFollower()
-
-	e.mu.RLock()
-	onDemote := e.onDemote
-	e.mu.RUnlock()
-
-	if onDemote != nil {
-		log.Info("leader_demoted",
-			append(e.logWithContext(e.ctx),
-				zap.String("reason", "heartbeat_failure"),
-			)...,
-		)
-		onDemote()
+	if !e.becomeFollower() {
+		// somebody else already noticed the loss and ran the callback
+		return
 	}
+	e.runOnDemote("heartbeat_failure")
 }
 
 func (e *kvElection) handleHealthCheckFailure() {
@@ -243,18 +234,9 @@ func (e *kvElection) handleHealthCheckFailure() {
 		)...,
 	)
 
-	e.becomeFollower()
-
-	e.mu.RLock()
-	onDemote := e.onDemote
-	e.mu.RUnlock()
-
-	if onDemote != nil {
-		log.Info("leader_demoted",
-			append(e.logWithContext(e.ctx),
-				zap.String("reason", "health_check_failure"),
-			)...,
-		)
-		onDemote()
+	if !e.becomeFollower() {
+		// somebody else already noticed the loss and ran the callback
+		return
 	}
+	e.runOnDemote("health_check_failure")
 }
